@@ -57,6 +57,14 @@ func execute(c *Case) *sims.Outcome {
 				cancel()
 			}
 		}
+	case "on-delivery":
+		// the reply to request CancelAt reaches the library; the context is
+		// cancelled in the same instant
+		env.Net.OnDeliver = func(n int) {
+			if n == c.CancelAt {
+				cancel()
+			}
+		}
 	}
 	out := env.Run(ctx)
 	for i := 0; i < c.Again && c.Cancel == ""; i++ {
@@ -371,6 +379,17 @@ func run(r *core.Run) int {
 			}
 		}
 		cases = append(cases, c)
+	}
+	// (2b) systematically: the context is cancelled the moment a reply is delivered,
+	// for every request index of certificates with several sources
+	for _, o := range [][]slot{nil, {{"http", "err"}}, {{"http", "unknown-status"}}} {
+		for _, c := range [][]slot{{{"http", "clean"}, {"http", "clean"}}, {{"http", "clean"}, {"http", "delta-ok"}}, {{"http", "delta-ok"}, {"http", "clean"}, {"http", "clean"}}, {{"http", "clean"}, {"http", "lists"}}} {
+			for k := 0; k < 6; k++ {
+				cs := mk([]sims.CertPlan{mkPlan(o, c)}, "validate", "http", "", false)
+				cs.Cancel, cs.CancelAt = "on-delivery", k
+				cases = append(cases, cs)
+			}
+		}
 	}
 	// (3) independence groups
 	ng := r.Pick(800, 20000)
